@@ -35,6 +35,7 @@ type Arg struct {
 	Kind string   `json:"k"`
 	S    string   `json:"s,omitempty"`
 	I    int64    `json:"i,omitempty"`
+	U    uint64   `json:"u,omitempty"` // Kind "uint"
 	F    float64  `json:"f,omitempty"`
 	B    bool     `json:"b,omitempty"`
 	Call *Node    `json:"call,omitempty"`
@@ -47,6 +48,7 @@ type Arg struct {
 
 // Convenience constructors.
 func S(s string) Arg                 { return Arg{Kind: "str", S: s} }
+func U(u uint64, typ string) Arg     { return Arg{Kind: "uint", U: u, Typ: typ} }
 func I(i int64) Arg                  { return Arg{Kind: "int", I: i} }
 func F(f float64) Arg                { return Arg{Kind: "float", F: f} }
 func B(b bool) Arg                   { return Arg{Kind: "bool", B: b} }
@@ -177,6 +179,15 @@ func (env *Env) argValue(a Arg, pt reflect.Type) (reflect.Value, error) {
 		v = reflect.ValueOf(a.S)
 	case "int":
 		v = typedInt(a.I, a.Typ)
+	case "uint":
+		switch a.Typ {
+		case "uint32":
+			v = reflect.ValueOf(uint32(a.U))
+		case "uint64":
+			v = reflect.ValueOf(a.U)
+		default:
+			v = reflect.ValueOf(uint(a.U))
+		}
 	case "float":
 		if a.Typ == "float32" {
 			v = reflect.ValueOf(float32(a.F))
@@ -381,6 +392,12 @@ func printArg(b *strings.Builder, a Arg, depth int) {
 		} else {
 			fmt.Fprintf(b, "%d", a.I)
 		}
+	case "uint":
+		typ := a.Typ
+		if typ == "" {
+			typ = "uint"
+		}
+		fmt.Fprintf(b, "%s(%d)", typ, a.U)
 	case "float":
 		s := strconv.FormatFloat(a.F, 'g', -1, 64)
 		if !strings.ContainsAny(s, ".eE") {
